@@ -145,6 +145,7 @@ type env struct {
 
 	p          godi.Provider
 	hosts      []godi.Scope // long-lived host scopes (outermost first)
+	rootHandle godi.Scope   // Host "root": the provider's root scope
 	hostSerial []int32
 	long       context.Context
 	longCancel context.CancelFunc
@@ -187,6 +188,7 @@ func newEnv(c *eng.Ctx, idx int, sp *Spec) *env {
 func (e *env) cleanup() {
 	e.held = nil
 	e.hosts = nil
+	e.rootHandle = nil
 	if e.p != nil {
 		_ = e.safely("provider.Close(cleanup)", func() { _ = e.p.Close() })
 		e.p = nil
